@@ -369,5 +369,9 @@ Fixpoint run (w : world) (h : list op) : list obs * world :=
   | o :: r => let (x, w1) := step w o in let (xs, w2) := run w1 r in (x :: xs, w2)
   end.
 
+(* a cache server process that is restarted comes back empty, with its generation counter at 0 (outside the property's
+   quantifier; used only to show that the no-restart assumption of the theorems is necessary) *)
+Definition restart (w : world) (s : nat) : world := mkW (upd s c_empty (w_srv w)) (w_cli w) (w_now w).
+
 (* what a direct fetch on every server's own cache gives for this key now (harness ground truth) *)
 Definition truth (w : world) (k : bytes) : list (option entry) := map (c_fetch (w_now w) k) (w_srv w).
